@@ -8,6 +8,7 @@ import (
 	"io"
 	"net/http"
 	"net/url"
+	"reflect"
 	"sort"
 	"strconv"
 	"strings"
@@ -91,7 +92,11 @@ var originPool = []string{"", "http://example.com", "https://example.com", "http
 	"https://example.com@evil.com", "https://evil.com@example.com", "https://user:pw@example.com", "null", "example.com", "//example.com", "http:example.com",
 	"http:/example.com", "https://exa mple.com", "https://ex%41mple.com", "https://[::1]", "https://[::1]:80", "https://example.com:x", "ws://example.com",
 	"https://example.org", "https://app.example.org", "https://app.example.org.evil.io", "HTTPS://APP.EXAMPLE.ORG", "https://xexample.org", "https://example.com/", "https://a/b@example.com",
-	"https://Kexample.com", "https://eſample.com", "http://%zz", "http://example.com\x00", " https://example.com", "https://example.com ", "https://example.com:", "file:///etc/passwd", "https://", "https:///example.com"}
+	"https://Kexample.com", "https://eſample.com", "http://%zz", "http://example.com\x00", " https://example.com", "https://example.com ", "https://example.com:", "file:///etc/passwd", "https://", "https:///example.com",
+	"https://evil.com?.example.org", "https://evil.com#.example.org", "https://evil.com?x=https://app.example.org", "https://evil.com/.example.org", "https://evil.com#https://example.org"}
+
+// patterns that carry a scheme: the library matches patterns against the origin's HOST only, so none of these may ever authorise anything
+var schemePatternPool = [][]string{{"https://*.example.org"}, {"https://example.org"}, {"*://*.example.org"}, {"https://*"}, {"http*://*example.org"}}
 
 var patternPool = [][]string{nil, {"example.org"}, {"*.example.org"}, {"*"}, {"app.example.org", "example.*"}, {"["}, {"example.org", "["}, {"[", "example.org"},
 	{"EXAMPLE.ORG"}, {"*.example.org", "example.org"}, {"app.exa?ple.org"}, {"app.[a-z]xample.org"}, {"*example.org"}, {"\\*.example.org"}, {"evil.com"}, {"*.com"}, {"sub.*.com"}}
@@ -188,6 +193,13 @@ func genHsAccept(r *Rng, tier string, stat func(string)) []string {
 			h := append(append([][2]string(nil), valid...), [2]string{"Origin", o})
 			out = append(out, fmt.Sprintf("method=%s proto=1.1 host=%s hdrs=%s subs=- skip=0 pats=%s mode=0", hx("GET"), hx("example.com"), encHdrs(h), encList(ps)))
 			stat("origin-grid")
+		}
+	}
+	for _, o := range originPool {
+		for _, ps := range schemePatternPool {
+			h := append(append([][2]string(nil), valid...), [2]string{"Origin", o})
+			out = append(out, fmt.Sprintf("method=%s proto=1.1 host=%s hdrs=%s subs=- skip=0 pats=%s mode=0", hx("GET"), hx("example.com"), encHdrs(h), encList(ps)))
+			stat("origin-scheme-patterns")
 		}
 	}
 	for _, e := range extOffers {
@@ -293,7 +305,12 @@ func genHsDial(r *Rng, tier string, stat func(string)) []string {
 		if r.Intn(4) == 0 {
 			hostOpt = "override.example"
 		}
-		out = append(out, fmt.Sprintf("status=%d hdrs=%s accept=%s subs=%s mode=%d chdrs=%s hostopt=%s", st, encHdrs(hdrs), acc, encList(reqSubs[r.Intn(len(reqSubs))]), r.Intn(3), encHdrs(ch), hx(hostOpt)))
+		// predial: the caller's HTTPHeader map has already been used for an earlier Dial with other options
+		predial := 0
+		if i%3 == 1 {
+			predial = 1
+		}
+		out = append(out, fmt.Sprintf("status=%d hdrs=%s accept=%s subs=%s mode=%d chdrs=%s hostopt=%s predial=%d", st, encHdrs(hdrs), acc, encList(reqSubs[r.Intn(len(reqSubs))]), r.Intn(3), encHdrs(ch), hx(hostOpt), predial))
 		stat("random")
 	}
 	valid := [][2]string{{"Connection", "Upgrade"}, {"Upgrade", "websocket"}}
@@ -343,8 +360,28 @@ func runHsDial(kv map[string]string) string {
 	mode, _ := strconv.Atoi(kv["mode"])
 	ctx, cancel := context.WithTimeout(context.Background(), 10*time.Second)
 	defer cancel()
+	callerHdr := decHdrs(kv["chdrs"])
+	if kv["predial"] == "1" {
+		// the same header map object was used for an earlier Dial with subprotocols and compression: nothing of that Dial may stick
+		if callerHdr == nil {
+			callerHdr = http.Header{}
+		}
+		lib0, raw0 := newTransport()
+		raw0.End(io.EOF)
+		rt0 := &dialRT{kv: map[string]string{"status": "400", "hdrs": "-", "accept": "missing"}, body: lib0}
+		c0, _, _ := websocket.Dial(ctx, "ws://dial.example/earlier", &websocket.DialOptions{HTTPClient: &http.Client{Transport: rt0}, Subprotocols: []string{"earlier1", "earlier2"},
+			CompressionMode: websocket.CompressionContextTakeover, HTTPHeader: callerHdr})
+		if c0 != nil {
+			c0.CloseNow()
+		}
+	}
+	before := callerHdr.Clone()
 	c, _, err := websocket.Dial(ctx, "ws://dial.example/path", &websocket.DialOptions{HTTPClient: &http.Client{Transport: rt}, Subprotocols: decList(kv["subs"]),
-		CompressionMode: websocket.CompressionMode(mode), HTTPHeader: decHdrs(kv["chdrs"]), Host: string(Payload(kv["hostopt"]))})
+		CompressionMode: websocket.CompressionMode(mode), HTTPHeader: callerHdr, Host: string(Payload(kv["hostopt"]))})
+	kept := 1
+	if !reflect.DeepEqual(before, callerHdr) {
+		kept = 0 // Dial modified the caller's header map
+	}
 	ok := 0
 	sub := "-"
 	co := "-"
@@ -383,7 +420,7 @@ func runHsDial(kv map[string]string) string {
 		host = hx(rt.req.Host)
 		method = rt.req.Method
 	}
-	return fmt.Sprintf("ok=%d subproto=%s co=%s keyok=%d method=%s host=%s req=%s", ok, sub, co, keyOK, method, host, encHdrs(rh))
+	return fmt.Sprintf("ok=%d subproto=%s co=%s keyok=%d method=%s host=%s hdrkept=%d req=%s", ok, sub, co, keyOK, method, host, kept, encHdrs(rh))
 }
 
 var _ = hex.EncodeToString
